@@ -58,7 +58,7 @@ def cfgNested (keep standalone : Bool) : Cfg :=
     info := fun i => if i = 1 then { dir := .s2c, encl := some 0 } else {} }
 
 def nestedCancelRun : List Label :=
-  [.call 0, .deliver 0, .start 0, .call 1, .deliver 1, .start 1, .tick 10, .cancel 1 false, .retCtx 1]
+  [.call 0, .deliver 0, .start 0, .call 1, .deliver 1, .start 1, .tick 10, .cancel 1 false, .retire 1, .retCtx 1]
 
 theorem background_notice_misses_request_stream :
     (run (cfgNested false false) init nestedCancelRun).map
@@ -111,6 +111,16 @@ theorem only_notice_cancels {c : Cfg} {s s' : St} (l : Label) (j : Nat) (h : ste
       · cases h; rw [h0] at h1; cases h1
       · cases h
     · cases h
+  | retire i =>
+    simp only [step] at h
+    split at h
+    · split at h <;> (cases h; rw [h0] at h1; cases h1)
+    · cases h
+  | cancel i dl =>
+    simp only [step] at h
+    split at h
+    · split at h <;> (cases h; rw [h0] at h1; cases h1)
+    · cases h
   | resp i =>
     simp only [step] at h
     split at h
@@ -123,29 +133,34 @@ theorem only_notice_cancels {c : Cfg} {s s' : St} (l : Label) (j : Nat) (h : ste
     · cases h
 
 /-- **cancelled_handler_was_named.** In every reachable state a request whose handler context is cancelled is one
-whose caller's context ended and whose caller returned that context's error: no other in-flight request is cancelled. -/
+whose caller's context ended (and whose notice — or, with propagation, the end of its HTTP exchange — was
+delivered): no other in-flight request is cancelled. -/
 theorem cancelled_handler_was_named {c : Cfg} (hk : c.keepValues = true) (ls : List Label) {s : St}
     (h : run c init ls = some s) (j : Nat) (hj : s.hcan j = true) :
-    ∃ dl, s.ctxDone j = some dl ∧ s.res j = some (.ctx dl) ∧ s.notice j = .delivered := by
+    s.ctxDone j ≠ none ∧ s.notice j = .delivered ∧ (s.retired j = true ∨ abortIsNotice c j = true) := by
   have I := inv_run hk ls h
   have hd := I.hcan_of j hj
-  obtain ⟨dl, hres⟩ := (I.notice_iff j).mp (by rw [hd]; simp)
-  exact ⟨dl, I.res_ctx j dl hres, hres, hd⟩
+  have hn : s.notice j ≠ .none := by rw [hd]; simp
+  exact ⟨I.notice_ctx j hn, hd, I.notice_src j hn⟩
 
 /-! ## the caller -/
 
-/-- **caller_returns_without_peer.** A caller whose context ended and who has not returned can return in the
-very next step, whatever the rest of the state is (peer silent, request not even delivered, notices of other
-calls pending or undeliverable): `retCtx` is enabled by the caller's own state alone, its result is the
-context's error, and it is urgent — virtual time cannot advance before it happened. -/
+/-- **caller_returns_without_peer.** A caller whose context ended and who has not returned can retire its call and
+return in the very next two steps, whatever the rest of the state is (peer silent, request not even delivered,
+notices of other calls pending or undeliverable): `retire` and `retCtx` are enabled by the caller's own state
+alone, the result is the context's error, no virtual time passes, and both are urgent — time cannot advance
+before they happened. -/
 theorem caller_returns_without_peer {c : Cfg} {s : St} (i : Nat) (dl : Bool) (hc : s.ctxDone i = some dl)
     (hr : s.reg i = true ∨ s.got i = true) (hn : s.res i = none) :
-    (∃ s', step c s (.retCtx i) = some s' ∧ s'.res i = some (.ctx dl) ∧ s'.now = s.now ∧ s'.reg i = false) ∧
-    (i < c.n → ∀ d, step c s (.tick d) = none) := by
-  constructor
-  · simp only [step, hc]
-    rw [if_pos ⟨hr, hn⟩]
-    exact ⟨_, rfl, by simp [upd], rfl, by simp [upd]⟩
+    (∃ s', run c s [.retire i, .retCtx i] = some s' ∧ s'.res i = some (.ctx dl) ∧ s'.now = s.now ∧ s'.reg i = false) ∧
+    (i < c.n → ∀ d, step c s (.tick d) = none) ∧
+    (i < c.n → ∀ s1, step c s (.retire i) = some s1 → ∀ d, step c s1 (.tick d) = none) := by
+  refine ⟨?_, ?_, ?_⟩
+  · simp only [run, step]
+    rw [if_pos ⟨by rw [hc]; simp, hr, hn⟩]
+    by_cases ha : abortIsNotice c i = true
+    · simp [ha, upd, hc, hn]
+    · simp [ha, upd, hc, hn]
   · intro hi d
     simp only [step]
     rw [if_neg]
@@ -153,6 +168,18 @@ theorem caller_returns_without_peer {c : Cfg} {s : St} (i : Nat) (dl : Bool) (hc
     have := quiet_spec hq i hi
     unfold urgent at this
     rcases hr with hr | hr <;> simp [hc, hr, hn] at this
+  · intro hi s1 h1 d
+    have hret : s1.retired i = true ∧ s1.res i = none ∧ s1.ctxDone i = some dl := by
+      simp only [step] at h1
+      split at h1
+      · split at h1 <;> (cases h1; simp [upd, hn, hc])
+      · cases h1
+    simp only [step]
+    rw [if_neg]
+    intro ⟨_, hq⟩
+    have := quiet_spec hq i hi
+    unfold urgent at this
+    simp [hret.1, hret.2.1, hret.2.2] at this
 
 /-- The notifier is a process of its own: after `retCtx` the caller's fields never change again, whatever
 happens to the notice (`notice`, `drop`, or nothing at all while the transport stalls it). -/
@@ -185,7 +212,7 @@ theorem result_is_own {c : Cfg} (hk : c.keepValues = true) (ls : List Label) {s 
   have I := inv_run hk ls h
   have hg := I.good
   cases r with
-  | ctx dl => exact Or.inr ⟨dl, rfl, I.res_ctx i dl hr⟩
+  | ctx dl => exact Or.inr ⟨dl, rfl, (I.res_ctx i dl hr).1⟩
   | ok p =>
     left
     -- the only label that sets an `ok` result is retOk, with the call's own payload: by induction over the run
@@ -226,6 +253,14 @@ theorem result_is_own {c : Cfg} (hk : c.keepValues = true) (ls : List Label) {s 
           · split at hs <;> (cases hs; exact h0 j p hj)
           · cases hs
         case notice k =>
+          split at hs
+          · split at hs <;> (cases hs; exact h0 j p hj)
+          · cases hs
+        case retire k'' =>
+          split at hs
+          · split at hs <;> (cases hs; exact h0 j p hj)
+          · cases hs
+        case cancel k'' dl'' =>
           split at hs
           · split at hs <;> (cases hs; exact h0 j p hj)
           · cases hs
@@ -274,6 +309,14 @@ theorem result_is_own {c : Cfg} (hk : c.keepValues = true) (ls : List Label) {s 
           split at hs
           · split at hs <;> (cases hs; exact h0 j k hj)
           · cases hs
+        case retire k'' =>
+          split at hs
+          · split at hs <;> (cases hs; exact h0 j k hj)
+          · cases hs
+        case cancel k'' dl'' =>
+          split at hs
+          · split at hs <;> (cases hs; exact h0 j k hj)
+          · cases hs
         all_goals
           split at hs
           · cases hs; exact h0 j k hj
@@ -296,8 +339,7 @@ theorem usable_after_cancel {c : Cfg} (hk : c.keepValues = true) (ls : List Labe
     | false => rfl
     | true =>
       have := I.hcan_of k hh
-      obtain ⟨dl, hd⟩ := (I.notice_iff k).mp (by rw [this]; simp)
-      rw [hres] at hd; cases hd
+      exact absurd hctx (I.notice_ctx k (by rw [this]; simp))
   simp [run, step, upd, hidle, hres, hctx, hroute, hencl, hk', hcan]
 
 /-! ## the boundary: a notice that arrives on another connection -/
@@ -327,13 +369,13 @@ the SDK's documented behaviour (handler cancellation on a stateless server is op
 `StreamableHTTPOptions.PropagateRequestCancellation`, 2026-07-28 only) and outside C04's "while the connection
 is healthy … the peer's handler for exactly that request": not a finding. -/
 theorem stateless_cancel_leaves_handler_running :
-    (run (cfgStateless false) init [.call 0, .deliver 0, .start 0, .tick 5, .cancel 0 false, .retCtx 0, .notice 0, .tick 1000]).map
+    (run (cfgStateless false) init [.call 0, .deliver 0, .start 0, .tick 5, .cancel 0 false, .retire 0, .retCtx 0, .notice 0, .tick 1000]).map
         (fun s => (s.res 0, s.notice 0, s.req 0, s.hcan 0, s.now)) = some (some (.ctx false), .delivered, .running, false, 1005) := by
   decide
 
 /-- With propagation the same schedule cancels the handler. -/
 theorem stateless_propagate_cancels_handler :
-    (run (cfgStateless true) init [.call 0, .deliver 0, .start 0, .tick 5, .cancel 0 false, .retCtx 0, .notice 0, .tick 1000]).map
+    (run (cfgStateless true) init [.call 0, .deliver 0, .start 0, .tick 5, .cancel 0 false, .retire 0, .retCtx 0, .notice 0, .tick 1000]).map
         (fun s => (s.res 0, s.req 0, s.hcan 0, (summ s.trace).hc 0)) = some (some (.ctx false), .running, true, some 5) := by
   decide
 
@@ -343,8 +385,8 @@ their notices are routed to the response stream of the abandoned request — a r
 dropped: the client's handlers of the nested requests keep running. -/
 theorem abandoned_request_stream_loses_nested_notice :
     (run (cfgNested true false) init
-        [.call 0, .deliver 0, .start 0, .call 1, .deliver 1, .start 1, .tick 10, .cancel 0 false, .retCtx 0, .notice 0,
-         .cancel 1 false, .retCtx 1]).map
+        [.call 0, .deliver 0, .start 0, .call 1, .deliver 1, .start 1, .tick 10, .cancel 0 false, .retire 0, .retCtx 0, .notice 0,
+         .cancel 1 false, .retire 1, .retCtx 1]).map
       (fun s => ((step (cfgNested true false) s (.notice 1)).isSome,
                  (run (cfgNested true false) s [.drop 1, .tick 1000]).map fun s' => (s'.req 1, s'.hcan 1, s'.hcan 0)))
       = some (false, some (.running, false, true)) := by decide
